@@ -225,4 +225,146 @@ theorem prodDead_not_done0 {fate : Item → Fate} {size : Item → Nat} {s0 s : 
   intro hd hdone
   rcases key.1 hd with h1 | h1 <;> rw [hdone] at h1 <;> cases h1
 
+/-! ### after a death inside `add_results` the result map is frozen -/
+
+/-- a poisoned mutex has no owner -/
+def PoisonQuiet (s : State) : Prop := s.poisoned = true → s.owner = none
+
+theorem poisonQuiet_init (n : Nat) (rx : Bool) (items : List Item) : PoisonQuiet (init n rx items) := by
+  intro h; simp [init] at h
+
+theorem step_poisonQuiet (fate : Item → Fate) (size : Item → Nat) (s : State) (st : Step)
+    (he : enabled size s st = true) (h : PoisonQuiet s) : PoisonQuiet (step fate s st) := by
+  cases st with
+  | prodSend =>
+    simp only [step]
+    split
+    · exact h
+    · split <;> exact h
+  | prodExit => exact h
+  | prodDies => exact h
+  | main =>
+    simp only [step]
+    split
+    · split <;> exact h
+    · split
+      · exact h
+      · split <;> exact h
+    · split
+      · exact h
+      · split <;> exact h
+    · exact h
+  | recv w =>
+    simp only [step]
+    split <;> exact h
+  | parsed w =>
+    simp only [step]
+    split
+    · split <;> exact h
+    · exact h
+  | lock w =>
+    simp only [enabled, Bool.and_eq_true] at he
+    have hfree : s.owner = none := by simpa using he.1.2
+    simp only [step]
+    split
+    · split
+      · intro _; exact hfree
+      · rename_i hnp
+        intro hp
+        exact absurd hp hnp
+    · exact h
+  | mergeEntry w =>
+    simp only [step]
+    split <;> exact h
+  | unlock w =>
+    simp only [step]
+    split
+    · intro _; rfl
+    · exact h
+  | workerDies w =>
+    simp only [step]
+    split
+    · exact h
+    · exact h
+    · exact h
+    · intro _; rfl
+    · exact h
+
+theorem run_poisonQuiet {fate : Item → Fate} {size : Item → Nat} {s s' : State} {tr : List Step}
+    (h : Run fate size s tr s') (hi : PoisonQuiet s) : PoisonQuiet s' := by
+  induction h with
+  | nil => exact hi
+  | cons he _ ih => exact ih (step_poisonQuiet _ _ _ _ he hi)
+
+/-- one step from a poisoned state: nothing is written, nothing enters `merged`, the mutex stays
+poisoned -/
+theorem step_frozen (fate : Item → Fate) (size : Item → Nat) (s : State) (st : Step)
+    (he : enabled size s st = true) (hmx : MutexInv s) (hq : PoisonQuiet s) (hp : s.poisoned = true) :
+    (step fate s st).log = s.log ∧ (step fate s st).merged = s.merged ∧
+      (step fate s st).poisoned = true := by
+  have hown : s.owner = none := hq hp
+  have notMerging : ∀ w x j, s.workers.getD w .exited = .merging x j → False := by
+    intro w x j hh
+    have := hmx.2 w (by rw [hh]; rfl)
+    rw [hown] at this; cases this
+  cases st with
+  | prodSend =>
+    simp only [step]
+    split
+    · exact ⟨rfl, rfl, hp⟩
+    · split <;> exact ⟨rfl, rfl, hp⟩
+  | prodExit => exact ⟨rfl, rfl, hp⟩
+  | prodDies => exact ⟨rfl, rfl, hp⟩
+  | main =>
+    simp only [step]
+    split
+    · split <;> exact ⟨rfl, rfl, hp⟩
+    · split
+      · exact ⟨rfl, rfl, hp⟩
+      · split <;> exact ⟨rfl, rfl, hp⟩
+    · split
+      · exact ⟨rfl, rfl, hp⟩
+      · split <;> exact ⟨rfl, rfl, hp⟩
+    · exact ⟨rfl, rfl, hp⟩
+  | recv w =>
+    simp only [step]
+    split <;> exact ⟨rfl, rfl, hp⟩
+  | parsed w =>
+    simp only [step]
+    split
+    · split <;> exact ⟨rfl, rfl, hp⟩
+    · exact ⟨rfl, rfl, hp⟩
+  | lock w =>
+    simp only [step]
+    split
+    · simp [hp]
+    · exact ⟨rfl, rfl, hp⟩
+  | mergeEntry w =>
+    simp only [step]
+    split
+    · rename_i x j hh
+      exact (notMerging w x j hh).elim
+    · exact ⟨rfl, rfl, hp⟩
+  | unlock w =>
+    simp only [step]
+    split <;> exact ⟨rfl, rfl, hp⟩
+  | workerDies w =>
+    simp only [step]
+    split
+    · exact ⟨rfl, rfl, hp⟩
+    · exact ⟨rfl, rfl, hp⟩
+    · exact ⟨rfl, rfl, hp⟩
+    · exact ⟨rfl, rfl, rfl⟩
+    · exact ⟨rfl, rfl, hp⟩
+
+theorem run_frozen {fate : Item → Fate} {size : Item → Nat} {s s' : State} {tr : List Step}
+    (h : Run fate size s tr s') (hmx : MutexInv s) (hq : PoisonQuiet s) (hp : s.poisoned = true) :
+    s'.log = s.log ∧ s'.merged = s.merged ∧ s'.poisoned = true := by
+  induction h with
+  | nil => exact ⟨rfl, rfl, hp⟩
+  | cons he _ ih =>
+    obtain ⟨e1, e2, e3⟩ := step_frozen _ _ _ _ he hmx hq hp
+    obtain ⟨f1, f2, f3⟩ := ih (step_mutexInv _ _ _ _ he hmx) (step_poisonQuiet _ _ _ _ he hq) e3
+    exact ⟨f1.trans e1, f2.trans e2, f3⟩
+
 end Grcov.Pipeline
